@@ -163,12 +163,15 @@ const FAULT_KINDS: &[&str] = &[
     // faults deep inside nested blocks, next to blank lines, behind tabs or wide white space (what message_for_line's
     // common-indentation logic has to cope with)
     "gen-scalar-type-missing", "op-invalid-unspread-fragment",
+    // a fault inside an #import-ed fragment: its diagnostic is produced while the importing document is checked but is
+    // positioned in (and has to name) the fragment's file — one and two levels of import, by name and by wildcard
+    "import1-frag-undeclared-variable", "import2-frag-undeclared-variable", "import1-frag-unknown-field", "import2-frag-unknown-field",
     "op-deep-unknown-field", "op-deep-syntax", "op-deep-tabs", "op-wide-space-syntax", "schema-deep-unknown-type", "schema-deep-wide-doc",
 ];
 /// faults whose handling by the current code violates the property (known findings; kept in dedicated projects) — none at present
 const KNOWN_FAULT_KINDS: &[&str] = &[];
 
-struct Built { proj: Project, docs: Vec<g::Doc>, schema: g::Schema }
+struct Built { proj: Project, docs: Vec<g::Doc>, schema: g::Schema, extra_ops: Vec<(String, String)> }
 
 fn base_project(rng: &mut Rng, idx: usize, thorough: bool, at_least_two: bool) -> Built {
     let with_desc = rng.chance(1, 2);
@@ -205,7 +208,7 @@ fn base_project(rng: &mut Rng, idx: usize, thorough: bool, at_least_two: bool) -
         name: format!("p{idx}"), schema_files, op_files: vec![], plugins, gen, yaml_override: None, faults: vec![],
         schema_glob: Some("schema/*.graphql".into()), docs_glob: Some("ops/*.graphql".into()),
     };
-    Built { proj, docs, schema }
+    Built { proj, docs, schema, extra_ops: vec![] }
 }
 
 /// renders the documents into operation files; fragments of some documents move into a separate imported file
@@ -366,6 +369,40 @@ fn inject(rng: &mut Rng, root: &Path, b: &mut Built, kind: &str, prefix: &mut Ve
             let _ = writeln!(s, "}}");
             t.push_str(&s);
             f.stage = 4; f.files = vec![sfile];
+        }
+        "import1-frag-undeclared-variable" | "import2-frag-undeclared-variable" | "import1-frag-unknown-field" | "import2-frag-unknown-field" => {
+            let q = b.schema.query.clone();
+            let two = kind.starts_with("import2");
+            let by_name = serial % 2 == 0;
+            let n = serial;
+            // the fragment file: comment lines first, so that its line numbers do not exist in the short importing file
+            let mut fr = String::new();
+            for k in 0..rng.range(5, 8) { let _ = writeln!(fr, "# fragments of imp{n}.graphql, line {k}"); }
+            let _ = writeln!(fr);
+            let _ = writeln!(fr, "fragment ImpF{n} on {q} {{");
+            let _ = writeln!(fr, "  __typename");
+            if kind.ends_with("undeclared-variable") {
+                // valid on its own (variable uses of a fragment nothing spreads are not checked); the importing
+                // operation does not declare the variable
+                let _ = writeln!(fr, "  again{n}: __typename @include(if: $undeclared{n})");
+            } else {
+                let _ = writeln!(fr, "  zzImported{n}");
+            }
+            let _ = writeln!(fr, "}}");
+            let frag_file = format!("ops/imp{n}_frags.graphql");
+            let mut files = vec![(frag_file.clone(), fr)];
+            let imp = |names: &str, by_name: bool, from: &str| if by_name { format!("#import {names} from \"./{from}\"\n") } else { format!("#import * from \"./{from}\"\n") };
+            let top_from;
+            let top_names;
+            if two {
+                let mid = format!("#\n{}fragment ImpMid{n} on {q} {{\n  ...ImpF{n}\n}}\n", imp(&format!("ImpF{n}"), !by_name, &format!("imp{n}_frags.graphql")));
+                files.push((format!("ops/imp{n}_mid.graphql"), mid));
+                top_from = format!("imp{n}_mid.graphql"); top_names = format!("ImpMid{n}");
+            } else { top_from = format!("imp{n}_frags.graphql"); top_names = format!("ImpF{n}"); }
+            let top = format!("{}query ImpQ{n} {{\n  ...{top_names}\n}}\n", imp(&top_names, by_name, &top_from));
+            files.push((format!("ops/imp{n}.graphql"), top));
+            b.extra_ops.extend(files);
+            f.stage = 8; f.files = vec![abs(root, &frag_file)];
         }
         "schema-duplicate" => {
             // a second definition of an object type that exists somewhere in the schema
@@ -655,7 +692,7 @@ fn main() {
     let scratch = fs::canonicalize(&scratch).expect("scratch dir must exist");
     assert!(!scratch.starts_with("/repo") && !scratch.starts_with("/verif"), "scratch directory must be outside /repo and /verif");
     let mut rng = Rng::new(args.seed);
-    let n_projects = if thorough { 1200 } else { 60 };
+    let n_projects = if thorough { 1200 } else { 66 };
     let mut outs: Vec<CaseOut> = vec![];
     let mut stats: BTreeMap<String, u64> = BTreeMap::new();
     let mut bump = |k: &str, n: u64| { *stats.entry(k.to_string()).or_insert(0) += n; };
@@ -683,7 +720,7 @@ fn main() {
             let j = (idx / 3) * 2 + (idx % 3) - 1;     // 0, 1, 2, … over the faulty projects
             if j < plan_kinds.len() {
                 kinds.push((plan_kinds[j], None));
-                if !KNOWN_FAULT_KINDS.contains(&plan_kinds[j]) && !plan_kinds[j].contains("deep") && !plan_kinds[j].contains("wide") && rng.chance(1, 3) { kinds.push((*rng.pick(FAULT_KINDS), None)); }
+                if !KNOWN_FAULT_KINDS.contains(&plan_kinds[j]) && !plan_kinds[j].contains("deep") && !plan_kinds[j].contains("wide") && !plan_kinds[j].starts_with("import") && rng.chance(1, 3) { kinds.push((*rng.pick(FAULT_KINDS), None)); }
             } else if j < plan_kinds.len() + PAIRS.len() {
                 let (a, c) = PAIRS[j - plan_kinds.len()];
                 kinds.push((a, Some(0))); kinds.push((c, Some(1))); pair = true;
@@ -710,6 +747,8 @@ fn main() {
             if let Some(v) = &f.via { if stage7.contains(v) && !f.files.contains(v) { f.files.push(v.clone()); } }
         }
         render_ops(&mut rng, &mut b, &mut prefix, &mut suffix);
+        let extra = std::mem::take(&mut b.extra_ops);
+        b.proj.op_files.extend(extra);
         if twin_ops > 0 {
             // copies of the first operation file (the one the fault went into), byte for byte
             let src = b.proj.op_files.iter().find(|(n, _)| n == "ops/q0.graphql").map(|(_, t)| t.clone());
